@@ -1063,5 +1063,17 @@ seed("c19-counter-reset-per-command", "C19", "R-linelimit-threshold", "conn.go",
 	line, err := c.text.ReadLine()
 	if err == nil && c.lineLimitReader.exceeded() {""", "readLine zeroes the limiter's count: read-ahead octets of a pipelined long line are forgotten")
 
+seed("c17-reply-lines-trimmed-in-place", "C17", "R-reply-format", "conn.go",
+"""	lastLineIndex := len(text) - 1
+	for i := 0; i < lastLineIndex; i++ {""", """	for i, line := range text {
+		text[i] = strings.TrimSpace(line)
+	}
+
+	lastLineIndex := len(text) - 1
+	for i := 0; i < lastLineIndex; i++ {""", "leading/trailing blanks of the backend's message text are lost")
+seed("c17-reply-line-trimmed-at-print", "C17", "R-reply-format", "conn.go",
+"""		c.text.PrintfLine("%d %v.%v.%v %v", code, enhCode[0], enhCode[1], enhCode[2], text[lastLineIndex])""",
+"""		c.text.PrintfLine("%d %v.%v.%v %v", code, enhCode[0], enhCode[1], enhCode[2], strings.TrimSpace(text[lastLineIndex]))""", "last line trimmed when printed")
+
 json.dump(S, open(os.path.join(os.path.dirname(os.path.abspath(__file__)), "bank.json"), "w"), indent=1)
 print(len(S), "seeds")
